@@ -2,8 +2,10 @@ package upstream
 
 import (
 	"context"
+	"encoding/base64"
 	"fmt"
 	"os"
+	"runtime/debug"
 	"strings"
 	"testing"
 	"testing/synctest"
@@ -17,7 +19,10 @@ import (
 	"github.com/rs/zerolog"
 )
 
-func init() { zerolog.SetGlobalLevel(zerolog.Disabled) }
+func init() {
+	debug.SetMaxStack(32 << 20) // a runaway recursion in the implementation fails fast instead of growing to 1 GB
+	zerolog.SetGlobalLevel(zerolog.Disabled)
+}
 
 var vRace = os.Getenv("VERIF_RACE") == "1"
 
@@ -90,7 +95,7 @@ func bubble(t *testing.T, f func()) {
 		f()
 	})
 }
-func wait()                         { synctest.Wait() }
+func wait() { synctest.Wait() }
 
 func runExplore(t *testing.T, rep *report.R, bound int, scenario func(c *choice.Ctx)) choice.Stats {
 	sh, n := report.Shard()
@@ -124,3 +129,5 @@ func runExplore(t *testing.T, rep *report.R, bound int, scenario func(c *choice.
 }
 
 var _ = env.Poison
+
+func b64dec(s string) ([]byte, error) { return base64.RawURLEncoding.DecodeString(s) }
